@@ -40,8 +40,9 @@ pub fn fill_report(rep: &mut Report, acc: Acc, space: &str) {
         "choice_points": acc.stats.choice_points, "max_alternatives_at_a_point": acc.stats.max_alts,
         "max_sat_calls_in_an_execution": acc.stats.max_calls,
         "alternative_cap_hit": acc.stats.alt_capped, "execution_cap_hit": acc.stats.exec_capped,
-        "distinct_outcomes": acc.outcomes.len(),
+        "distinct_outcomes": acc.outcomes.len(), "wall_s": (acc.wall_s * 10.0).round() / 10.0,
     });
+    eprintln!("  space '{}': {:.1}s", space, acc.wall_s);
     for s in acc.samples {
         rep.add_sample(s);
     }
@@ -113,6 +114,23 @@ pub fn run(prop: &str, tier: Tier) -> i32 {
         prop_of,
     };
     fill_report(&mut rep, plan.run(), "S structured family, D<=1");
+    // (2') dense extremes (complete digraphs on 11 / 16 arguments): capacity / overflow boundaries of the
+    // encoders' size tests; one oracle behaviour (CaDiCaL) - the oracle tree of a 16-clique is too wide
+    {
+        let plan = SweepPlan {
+            graphs: crate::universe::dense_extremes().into_iter().map(|(n, g)| (format!("dense:{}", n), g)).collect(),
+            presentations: vec![Presentation::Compact],
+            kinds: kinds.clone(),
+            sems: all_sems(),
+            certs: certs.clone(),
+            lists: ArgLists::Single,
+            with_lib_default: true,
+            cfgs: vec![],
+            with_cadical: true,
+            prop_of,
+        };
+        fill_report(&mut rep, plan.run(), "3 dense extremes (K16 with / without loops, K11 with loops), CaDiCaL; the exponential encoder is not asked where it needs > 10^6 clauses");
+    }
     if thorough {
         let plan = SweepPlan {
             graphs: s_family().into_iter().filter(|(_, g)| g.n <= 9).collect(),
@@ -144,6 +162,28 @@ pub fn run(prop: &str, tier: Tier) -> i32 {
             prop_of,
         };
         fill_report(&mut rep, plan.run(), &format!("one representative per isomorphism class of 5-argument frameworks with <= {} attacks, D<={}", k, if thorough { 2 } else { 1 }));
+    }
+    // (2b') sparse 6-argument frameworks (one per isomorphism class): CaDiCaL, thorough also D <= 1
+    {
+        let k = if thorough { 8 } else { 7 };
+        let classes = crate::universe::iso_classes_augment(6, k);
+        if crate::universe::iso_classes_augment(4, 16).len() != 3044 {
+            rep.machinery_errors.push("iso_classes_augment(4, 16) does not give the 3044 classes of U(4)".into());
+        }
+        let n_classes = classes.len();
+        let plan = SweepPlan {
+            graphs: named(classes, "U6iso"),
+            presentations: vec![Presentation::Compact],
+            kinds: kinds.clone(),
+            sems: all_sems(),
+            certs: certs.clone(),
+            lists: ArgLists::Single,
+            with_lib_default: false,
+            cfgs: if thorough { vec![bounded(1, FvPolicy::False)] } else { vec![] },
+            with_cadical: true,
+            prop_of,
+        };
+        fill_report(&mut rep, plan.run(), &format!("one representative per isomorphism class of 6-argument frameworks with <= {} attacks ({}), CaDiCaL{}", k, n_classes, if thorough { " and D<=1" } else { "" }));
     }
     // (2c) quick: one framework per isomorphism class of U(4), D <= 1, and CaDiCaL
     if !thorough {
